@@ -90,3 +90,19 @@ Definition op_replace (s p r : bytes) : bytes :=
   | [] => replace_empty (length s) r s
   | _ => replace_fuel (S (length s)) p r s
   end.
+
+(* ---------- specification side of replace: the pieces between the leftmost non-overlapping occurrences ---------- *)
+Fixpoint pieces_fuel (fuel : nat) (p s : bytes) : list bytes :=
+  match fuel with
+  | O => [s]
+  | S f =>
+      if is_prefix p s then [] :: pieces_fuel f p (drop (len p) s)
+      else match s with
+           | [] => [[]]
+           | b :: t => match pieces_fuel f p t with
+                       | h :: tl => (b :: h) :: tl
+                       | [] => [[b]]
+                       end
+           end
+  end.
+Definition pieces (p s : bytes) : list bytes := pieces_fuel (S (length s)) p s.
